@@ -5568,6 +5568,9 @@ class CodegenCtx:
             size_str = self._generate_buflike_length_expr(intexpr.ref)
             if ProgramData.do(ProgramFlag.UNSAFE_STRING_INDEXING):
                 return text
+            if ProgramData.do(ProgramFlag.ALLOCATE_STR_SPACE_DYNAMIC_ON_DEMAND) and self._is_dynamic(intexpr.ref):
+                # a string allocated on demand has no buffer until something is stored in it (or after delete freed it)
+                return f"((state->c.{intexpr.ref.name} != NULL && ({index}) >= 0 && ({index}) < {size_str}) ? {text} : 0)"
             return f"((({index}) >= 0 && ({index}) < {size_str}) ? {text} : 0)"
         elif isinstance(intexpr, LastCharIntegerExpr):
             return f"(inval)" # name of the last character value
